@@ -138,13 +138,32 @@ func genSrvMerge(rng *rand.Rand, tier string, emit func(string)) {
 		for s := 0; s < sessions; s++ {
 			P := smDrawP(rng, nsess)
 			nsess++
-			emit(fmt.Sprintf("reset P=%d via=%s", P, via()))
+			// every third session: the node hosts only the partitions 0..H-1 of the namespace (the others live on other
+			// nodes); every key used is owned by a hosted partition, so every answer must be what a full node gives
+			H := 0
+			if s%3 == 2 {
+				if P < 3 {
+					P = 4
+				}
+				H = 2 + rng.Intn(P-2) // at least two hosted partitions: hash % H and hash % P differ for most keys
+				emit(fmt.Sprintf("reset P=%d H=%d via=%s", P, H, via()))
+			} else {
+				emit(fmt.Sprintf("reset P=%d via=%s", P, via()))
+			}
+			hostedKey := func(mk func() string) string {
+				for {
+					k := mk()
+					if H == 0 || smKeyValidity(k) != 1 || smClientPartition(k, P) < H {
+						return k
+					}
+				}
+			}
 			npool := 6 + rng.Intn(10)
 			pool := make([]string, npool)
 			for i := range pool {
-				pool[i] = smNS + ":" + tables[rng.Intn(len(tables))] + ":" + smKeyPart(rng)
+				pool[i] = hostedKey(func() string { return smNS + ":" + tables[rng.Intn(len(tables))] + ":" + smKeyPart(rng) })
 			}
-			if rng.Intn(2) == 0 { // same key part in two tables whose names are in a prefix relation
+			if rng.Intn(2) == 0 && H == 0 { // same key part in two tables whose names are in a prefix relation
 				pool[0] = smNS + ":t:" + pool[1][strings.Index(pool[1][len(smNS)+1:], ":")+len(smNS)+2:]
 			}
 			key := func() string { return pool[rng.Intn(npool)] }
@@ -183,7 +202,7 @@ func genSrvMerge(rng *rand.Rand, tier string, emit func(string)) {
 					}
 					k := key()
 					if rng.Intn(3) == 0 {
-						k = smNS + ":" + tables[rng.Intn(len(tables))] + ":" + smKeyPart(rng)
+						k = hostedKey(func() string { return smNS + ":" + tables[rng.Intn(len(tables))] + ":" + smKeyPart(rng) })
 					}
 					emit("w " + tp + " " + smHexArgs(append([]string{k}, es...)...))
 				case x < 45:
@@ -206,7 +225,7 @@ func genSrvMerge(rng *rand.Rand, tier string, emit func(string)) {
 					mixed := rng.Intn(3) == 0
 					// rarely one SET of an all-SET pipeline carries a key that no store accepts
 					badAt := -1
-					if !mixed && rng.Intn(10) == 0 {
+					if !mixed && rng.Intn(10) == 0 && H == 0 {
 						badAt = rng.Intn(n)
 					}
 					var cs []string
@@ -462,7 +481,11 @@ type smServer struct {
 	nodes []*node.NamespaceNode
 }
 
-func startSMServer(P int, eng string, dir string) (*smServer, error) {
+func startSMServer(P int, eng string, dir string, hosted ...int) (*smServer, error) {
+	H := P // number of partitions hosted by this node (0..H-1); the others are "on other nodes"
+	if len(hosted) > 0 && hosted[0] >= 1 && hosted[0] < P {
+		H = hosted[0]
+	}
 	ports, err := freePorts(4)
 	if err != nil {
 		return nil, err
@@ -481,7 +504,7 @@ func startSMServer(P int, eng string, dir string) (*smServer, error) {
 		return nil, err
 	}
 	s := &smServer{srv: srv, dir: dir, P: P, port: ports[1]}
-	for i := 0; i < P; i++ {
+	for i := 0; i < H; i++ {
 		nsConf := node.NewNSConfig()
 		nsConf.Name = smNS + "-" + strconv.Itoa(i)
 		nsConf.BaseName = smNS
@@ -505,12 +528,12 @@ func startSMServer(P int, eng string, dir string) (*smServer, error) {
 				lead++
 			}
 		}
-		if lead == P {
+		if lead == H {
 			break
 		}
 		if time.Since(t0) > 40*time.Second {
 			s.stop()
-			return nil, fmt.Errorf("verif: %d of %d partitions have a leader after 40 s", lead, P)
+			return nil, fmt.Errorf("verif: %d of %d partitions have a leader after 40 s", lead, H)
 		}
 		time.Sleep(20 * time.Millisecond)
 	}
@@ -1106,8 +1129,13 @@ func newSrvMerge(c *Ctx) func(string) string {
 			}
 		}
 	})
-	lastP, lastVia := 3, "mem" // what the last `reset` asked for (the Lean driver starts with 3 as well)
-	open := func(P int, via string) string {
+	lastP, lastVia, lastH := 3, "mem", 0 // what the last `reset` asked for (the Lean driver starts with 3 as well)
+	var open func(P int, via string) string
+	openH := func(P int, via string, H int) string {
+		lastH = H
+		return open(P, via)
+	}
+	open = func(P int, via string) string {
 		lastP, lastVia = P, via
 		if ss != nil {
 			old := ss
@@ -1122,7 +1150,7 @@ func newSrvMerge(c *Ctx) func(string) string {
 				c.Violation("harness", err.Error())
 				return "err:start"
 			}
-			s, err := startSMServer(P, "pebble", dir)
+			s, err := startSMServer(P, "pebble", dir, lastH)
 			if err != nil {
 				os.RemoveAll(dir)
 				c.Violation("harness", "server start: "+err.Error())
@@ -1131,6 +1159,9 @@ func newSrvMerge(c *Ctx) func(string) string {
 			ss = &smSess{srv: s, via: via, kv: map[string]string{}, hash: map[string]map[string]string{}, list: map[string][]string{},
 				set: map[string]map[string]bool{}, zset: map[string]map[string]int{}}
 			c.Note(fmt.Sprintf("session:P=%d", P))
+			if lastH > 0 && lastH < P {
+				c.Note("session:partly-hosted")
+			}
 			c.Note("session:via=" + via)
 			return "ok"
 		})
@@ -1266,7 +1297,11 @@ func newSrvMerge(c *Ctx) func(string) string {
 			if via != "tcp" {
 				via = "mem"
 			}
-			return open(P, via)
+			H, _ := strconv.Atoi(a["H"]) // H=<k>: only partitions 0..k-1 are hosted by this node (0 / absent: all)
+			if H < 0 || H >= P {
+				H = 0
+			}
+			return openH(P, via, H)
 
 		case "w":
 			if len(f) < 4 || !need() {
